@@ -4,8 +4,11 @@ leaking or reusing dead connections.
 ``bounded(run, tier, seed)`` drives REAL pools (``QueuePool`` with pre_ping on/off, recycle on/off, with/without a checkout
 listener that raises ``DisconnectionError`` / ``InvalidatePoolError``; ``NullPool``; ``StaticPool``; ``SingletonThreadPool``)
 through every history of the operations of rtc/poolhist.py and injects a fault at EVERY DBAPI call position of every history
-(connect / rollback-on-return / close / ping / cursor / execute / checkout-event), as a disconnect-classified error and as an
-ordinary DBAPI error; short histories additionally with a second fault at every later position.
+(connect / rollback-on-return / close / ping / cursor / execute / checkout-event), in each of FOUR exception classes: an
+ordinary DBAPI error, a disconnect-classified DBAPI error, an ``Exception`` that is no DBAPI error ("plain") and a
+``BaseException`` that is no ``Exception`` ("base": what KeyboardInterrupt / asyncio.CancelledError / GreenletExit look like to
+the pool — ``except Exception`` does not see it); short histories additionally with a second fault (same four classes) at every
+later position.  The property quantifies over "any sequence of faults": the class of the exception is a dimension of the fault.
 
 Contract (clauses P5, P6, P7, P3, P4 after EVERY step — a handed-out connection is never ledger-closed, never one that was
 soft/hard invalidated, never older than a pool-wide invalidation of its generation or than ``recycle``; no DBAPI call reaches a
@@ -19,6 +22,12 @@ the pool is for testing; for them only hard invalidation, check-in, gc and use a
 no recycle), with ONE holder at a time (simultaneous checkouts share the one connection by design, so invalidating it under
 another holder is outside), and the exclusivity / count clauses do not apply.
 
+Known findings (known_findings.d/C26.json, both with a native replay in their ``what``): a "base" fault out of the DBAPI
+``close()`` (Pool._close_connection re-raises it, the callers skip their clean-up) and a "base" fault out of the reset of a
+garbage-collected checkout (swallowed inside the weakref callback before checkin()).  They are matched by the clause, the
+operation and the (call kind, exception class) of the LAST fault that fired — recorded in the failure descriptor as ``fired`` —
+so any other consequence of a BaseException fault (e.g. at connect / ping / cursor / execute / checkout-event) is reported.
+
 It appends exactly one block to ``run.coverage["bounded"]`` and reports failures through ``run``.
 """
 import json
@@ -28,7 +37,7 @@ from rtc import poolhist as H
 from rtc.shard import default_procs, shard_map
 
 FUNCTION = "sqlalchemy.pool.base._ConnectionRecord/_ConnectionFairy._checkout/_finalize_fairy"
-EXCS = ["error", "disconnect"]
+EXCS = ["error", "disconnect", "plain", "base"]
 
 CONFIGS = [
     dict(name="queue", pool="queue", pool_size=1, max_overflow=1),
@@ -77,9 +86,16 @@ def histories(cfg, maxlen):
     yield from rec(())
 
 
+def _quiet_unraisable():
+    # a BaseException that leaves a weakref callback (gc of a checkout, "base" fault in its reset) is printed by the interpreter
+    import sys
+    sys.unraisablehook = lambda *a: None
+
+
 def worker(shard, nshards, maxlen, two_len):
     F.quiet()
-    out = dict(runs=0, fired_distinct=0, histories=0, na=0, failures=[], by_kind={}, per_config={}, two_fault_runs=0, samples=[])
+    _quiet_unraisable()
+    out = dict(runs=0, fired_distinct=0, histories=0, na=0, failures=[], by_kind={}, by_exc={}, per_config={}, two_fault_runs=0, samples=[])
     idx = 0
     for cfg in CONFIGS:
         pc = out["per_config"].setdefault(cfg["name"], dict(histories=0, runs=0, fired=0))
@@ -121,10 +137,13 @@ def _account(out, pc, cfg, ops, faults, r):
         pc["fired"] += 1
         k = "+".join(f[0] for f in r["fired"])
         out["by_kind"][k] = out["by_kind"].get(k, 0) + 1
+        k = "+".join(f[2] for f in r["fired"])
+        out["by_exc"][k] = out["by_exc"].get(k, 0) + 1
         if len(out["samples"]) < 1 and len(ops) >= 2 and len(faults) == 1 and not r["failure"]:
             out["samples"].append(dict(config=cfg["name"], ops=list(ops), faults=[list(f) for f in faults], fired=r["fired"]))
     if r["failure"]:
-        out["failures"].append(dict(config=cfg["name"], ops=list(ops), faults=[list(f) for f in faults], **r["failure"]))
+        out["failures"].append(dict(config=cfg["name"], ops=list(ops), faults=[list(f) for f in faults],
+                                    fired=[[f[0], f[2]] for f in r["fired"]], **r["failure"]))
 
 
 def cfg_by_name(name):
@@ -138,7 +157,7 @@ def bounded(run, tier, seed):
     procs = default_procs(tier)
     res = shard_map(worker, procs, procs, maxlen, two)
     tot = dict(runs=0, fired_distinct=0, histories=0, na=0, two_fault_runs=0)
-    by_kind, per_config, failures, samples = {}, {}, [], []
+    by_kind, by_exc, per_config, failures, samples = {}, {}, {}, [], []
     for r in res:
         if r is None or "crash" in r:
             run.crashes.append("C26 bounded: " + (r or {}).get("crash", "shard returned nothing"))
@@ -147,6 +166,8 @@ def bounded(run, tier, seed):
             tot[k] += r[k]
         for k, v in r["by_kind"].items():
             by_kind[k] = by_kind.get(k, 0) + v
+        for k, v in r["by_exc"].items():
+            by_exc[k] = by_exc.get(k, 0) + v
         for k, v in r["per_config"].items():
             d = per_config.setdefault(k, dict(histories=0, runs=0, fired=0))
             for kk in d:
@@ -156,19 +177,23 @@ def bounded(run, tier, seed):
     tr = H.run_history(cfg_by_name("queue+pre_ping"), ("co", "ci0", "co"), [(4, "disconnect")], trace=True)
     samples = samples[:2] + [dict(config="queue+pre_ping", ops=["co", "ci0", "co"], faults=[[4, "disconnect"]], trace=tr["steps"],
                                   failure=tr["failure"])]
+    tr = H.run_history(cfg_by_name("queue"), ("co", "co"), [(1, "base")], trace=True)
+    samples.append(dict(config="queue", ops=["co", "co"], faults=[[1, "base"]], trace=tr["steps"], failure=tr["failure"]))
     blk = dict(
         label="bounded (not proof)", property="C26",
         scope=f"every history of length <= {maxlen} over {OPS_Q} (+tick with recycle; {OPS_SHARED} for StaticPool / "
               f"SingletonThreadPool) on {[c['name'] for c in CONFIGS]}; one fault at EVERY DBAPI call position (connect, "
-              f"rollback, close, ping, cursor, execute, checkout-event) x {{ordinary DBAPI error, disconnect-classified}}; "
-              f"two faults for histories of length <= {two}; single thread",
+              f"rollback, close, ping, cursor, execute, checkout-event) x exception class {EXCS} (ordinary DBAPI error, "
+              f"disconnect-classified DBAPI error, non-DBAPI Exception, BaseException that is not an Exception); "
+              f"two faults (all {len(EXCS) ** 2} class pairs) for histories of length <= {two}; single thread",
         evaluations=tot["runs"], distinct_nontrivial=tot["fired_distinct"],
         rule="each history is run once without fault to count the DBAPI calls it makes, then once per (call position, exception "
              "class) [and per later second position for short histories]; counted in distinct_nontrivial when every planned "
              "fault actually fired (read from the ledger); the (config, history, positions, exceptions) tuples are enumerated "
              "once each",
         samples=samples, exhaustive=True, histories=tot["histories"], pruned_no_target=tot["na"],
-        two_fault_runs=tot["two_fault_runs"], fired_by_dbapi_call_kinds=by_kind, per_config=per_config)
+        two_fault_runs=tot["two_fault_runs"], fired_by_dbapi_call_kinds=by_kind, fired_by_exception_classes=by_exc,
+        per_config=per_config)
     run.coverage.setdefault("bounded", []).append(blk)
     if tot["fired_distinct"] < 2:
         run.crashes.append("C26 bounded: vacuity guard: fewer than 2 faults fired")
@@ -179,6 +204,8 @@ def report(run, failures, tag):
     seen = {}
     for d in sorted(failures, key=lambda d: (len(d["ops"]), len(d["faults"]), d["config"], d["ops"], d["faults"])):
         desc = dict(config=d["config"], ops=d["ops"], faults=d["faults"], clause=d["clause"], at_op=d["at_op"], at_fired=d["at_fired"])
+        if d.get("fired"):
+            desc["fired"] = d["fired"]          # [[DBAPI call kind, exception class]] of the faults that fired, in order
         dj = json.dumps(desc, sort_keys=True)
         k = run.match_known(function=FUNCTION, input=dj)
         if k is not None:
@@ -198,6 +225,7 @@ def report(run, failures, tag):
 
 def replay(data):
     F.quiet()
+    _quiet_unraisable()
     inp = data["input"]
     r = H.run_history(cfg_by_name(inp["config"]), tuple(inp["ops"]), [tuple(f) for f in inp["faults"]], trace=True)
     if r["failure"]:
